@@ -1,5 +1,7 @@
 SPECIFICATION VSpec
-CONSTANT SweepEvery = 61
+CONSTANTS
+ SweepEvery = 61
+ PairFull = FALSE
 ACTION_CONSTRAINT VEmit
 INVARIANT RoundTripLaw
 CHECK_DEADLOCK FALSE
